@@ -1464,6 +1464,29 @@ class Interp:
             if not ts:
                 return name == 'all'
             return S(('bool', 'and' if name == 'all' else 'or', tuple(ts)), 'bool')
+        if name in ('sorted', 'min', 'max') and len(args) == 1 and isinstance(args[0], (list, tuple)) and is_conc(args[0]) and kwargs and set(kwargs) <= {'key', 'reverse'} \
+                and isinstance(kwargs.get('key'), S) and isinstance(kwargs['key'].t, tuple) and kwargs['key'].t[0] == 'lambda' and isinstance(kwargs.get('reverse', False), bool):
+            # key=lambda over a concrete sequence: evaluate the key expression per element
+            lam = ast.parse(kwargs['key'].t[1], mode='eval').body
+            if len(lam.args.args) == 1 and not lam.args.defaults:
+                keys = []
+                for el in args[0]:
+                    env = dict(st.env)
+                    env[lam.args.args[0].arg] = el
+                    k = self.eval(lam.body, State(env, st.heap, list(st.pc)))
+                    if not is_conc(k):
+                        keys = None
+                        break
+                    keys.append(k)
+                if keys is not None:
+                    try:
+                        order = sorted(range(len(keys)), key=lambda i: keys[i], reverse=kwargs.get('reverse', False))
+                    except TypeError as e:
+                        raise AnalysisError('sort keys not comparable: %r' % e)
+                    if name == 'sorted':
+                        return [args[0][i] for i in order]
+                    if args[0]:
+                        return args[0][order[0]] if (name == 'min') != kwargs.get('reverse', False) else args[0][order[-1]]
         if name in ('min', 'max', 'abs', 'sum', 'sorted', 'ord', 'chr', 'pow', 'divmod', 'round', 'float', 'any', 'all', 'reversed', 'hex', 'bin', 'enumerate', 'zip') and all(is_conc(a) for a in args) and not kwargs and args:
             import builtins
             try:
